@@ -19,6 +19,7 @@ Require Import Verif.Lib.Wire Verif.Lib.Text Verif.Lib.PathNorm Verif.Lib.Utf8 V
 Inductive err :=
 | EExn (e : exn)        (* URLDecodeError / UnicodeDecodeError / UnicodeEncodeError *)
 | ETypeError            (* webob: unknown scheme / fragment in the "URL" *)
+| EValueError           (* urllib.parse.urlsplit: bad [..] host in the "URL" *)
 | EUnsupported.         (* outside the model *)
 Inductive out (A : Type) := Val (a : A) | Err (e : err).
 Arguments Val {A}. Arguments Err {A}.
@@ -99,6 +100,28 @@ Definition blank_path_info (path : text) : out text :=
       else Val (webob_unquote url4)
   else Val (webob_unquote (hd [] (split_on question path))).
 
+(* the same with the one opaque step of urlsplit supplied as an oracle: [host_ok] = "urlsplit(path) does not
+   raise ValueError" (ipaddress / IPvFuture check of a bracketed host); consulted only when the netloc has
+   both brackets -- a single bracket is always a ValueError *)
+Definition blank_path_info_o (host_ok : bool) (path : text) : out text :=
+  if has_scheme path then
+    let url := filter (fun c => negb (is_tab_cr_lf c)) path in
+    let '(scheme_raw, rest0) := cut_at (N.eqb colon) url in
+    let scheme := map lower scheme_raw in
+    let rest := tl rest0 in
+    let '(netloc, url2) := if startswith [slash; slash] rest then cut_at is_netloc_end (skipn 2 rest)
+                           else ([], rest) in
+    if xorb (memN 91 netloc) (memN 93 netloc) then Err EValueError
+    else if memN 91 netloc && negb host_ok then Err EValueError
+    else
+      let '(url3, frag0) := cut_at (N.eqb hash) url2 in
+      let '(url4, _) := cut_at (N.eqb question) url3 in
+      if negb (match tl frag0 with [] => true | _ => false end) then Err ETypeError
+      else if negb (memN colon netloc) && negb (text_eqb scheme t_http || text_eqb scheme t_https)
+      then Err ETypeError
+      else Val (webob_unquote url4)
+  else Val (webob_unquote (hd [] (split_on question path))).
+
 (* pyramid.traversal.traverse(resource, path) *)
 Definition traverse7 (root : res) (start : pos) (p : api_path) : out tdict :=
   xlet path := match p with
@@ -119,6 +142,19 @@ Definition traverse7 (root : res) (start : pos) (p : api_path) : out tdict :=
 Definition find7 (root : res) (start : pos) (p : api_path) : out found :=
   xlet d := traverse7 root start p in
   Val (match t_view_name d with [] => FoundAt (t_context d) | _ => KeyErr end).
+
+(* find_resource(resource, <str>) with the oracle *)
+Definition find7_str_o (host_ok : bool) (root : res) (start : pos) (path : text) : out found :=
+  if negb (is_ascii path) then Err (EExn UnicodeEncodeError)
+  else
+    xlet resource := match path with
+                     | c :: _ => if N.eqb c slash then Val ([], root)
+                                 else match node_at root start with Some n => Val (start, n) | None => Err EUnsupported end
+                     | [] => match node_at root start with Some n => Val (start, n) | None => Err EUnsupported end
+                     end in
+    xlet path_info := blank_path_info_o host_ok path in
+    xlet d := lift (traverser_call resource (mkReq (Some path_info) None None)) in
+    Val (match t_view_name d with [] => FoundAt (t_context d) | _ => KeyErr end).
 
 (* ------------------------------------------------------------ ResourceURL *)
 Fixpoint texts_eqb (a b : list text) : bool :=
@@ -169,15 +205,23 @@ Definition join_elements (els : list text) : out text :=
   xlet qs := lift (rmap (fun e => quote_path_segment_safe e c07_elements_safe) els) in
   Val (join c07_elements_sep qs).
 
-(* request.resource_url(resource, *elements); [app] is the observed
-   request.application_url (webob), None when evaluating it raises *)
+(* webob.request.PATH_SAFE, the safe set of BaseRequest.application_url (third-party constant) *)
+Definition webob_path_safe : text := [47; 126; 33; 36; 38; 39; 40; 41; 42; 43; 44; 59; 61; 58; 64]%N.
+
+(* webob: request.application_url = host_url + url_quote(bytes_(script_name, url_encoding), PATH_SAFE);
+   [host] is the observed request.host_url (scheme://host[:port], C17's subject) *)
+Definition application_url (host : text) (sn : text) : out text :=
+  xlet d := lift (decode_path_info sn) in
+  Val (host ++ Percent.quote webob_path_safe (Utf8.encode d)).
+
+(* request.resource_url(resource, *elements) *)
 Definition resource_url (m : url_mode) (root : res) (r : pos) (els : list text) (vroot : option text)
-           (sn : text) (app : option text) : out text :=
+           (sn : text) (host : option text) : out text :=
   xlet ru := resource_url_adapter m root r vroot in
-  xlet _ := lift (decode_path_info sn) in
-  match app with
+  match host with
   | None => Err EUnsupported
-  | Some a =>
+  | Some h =>
+      xlet a := application_url h sn in
       xlet suffix := match els with [] => Val [] | _ => join_elements els end in
       Val (a ++ ru_vp ru ++ suffix)
   end.
@@ -291,6 +335,7 @@ Definition err_val (e : err) : val :=
   match e with
   | EExn x => VL [VI 1; VI (exn_code x)]
   | ETypeError => VL [VI 1; VI 4]
+  | EValueError => VL [VI 1; VI 5]
   | EUnsupported => VL [VI 2]
   end.
 Definition put_out {A} (f : A -> val) (r : out A) : val :=
@@ -305,7 +350,8 @@ Definition put_some {A} (f : A -> val) (o : option A) : val :=
 
 Record case := mkCase {
   c_tree : res; c_r : pos; c_a : pos; c_rel : list text; c_rel_str : text;
-  c_els : list text; c_vroot : option text; c_script : text; c_app : option text }.
+  c_els : list text; c_vroot : option text; c_script : text; c_app : option text;   (* c_app: request.host_url *)
+  c_host_ok : bool }.                     (* urlsplit(rel_str) does not raise ValueError *)
 
 (* the absolute string that is equivalent to looking [rel_str] up from [a] *)
 Definition abs_string (root : res) (a : pos) (rel_str : text) : out text :=
@@ -322,7 +368,7 @@ Definition model_obs (m : url_mode) (c : case) : list val :=
     put_out put_found (xlet s := resource_path root r [] in find7 root a (PStr s));
     put_out put_found (find7 root a (PTuple (c_rel c)));
     put_out put_found (xlet t := resource_path_tuple root a (c_rel c) in find7 root r (PTuple t));
-    put_out put_found (find7 root a (PStr (c_rel_str c)));
+    put_out put_found (find7_str_o (c_host_ok c) root a (c_rel_str c));
     put_out put_found (xlet s := abs_string root a (c_rel_str c) in find7 root r (PStr s));
     put_out put_rurl (resource_url_adapter m root r (c_vroot c));
     put_out put_text (resource_url m root r (c_els c) (c_vroot c) (c_script c) (c_app c));
@@ -356,14 +402,13 @@ Definition spec_obs (c : case) : list val :=
                    end in
   [ none_val; none_val; back; back; lookup; lookup; lookup_str; lookup_str;
     put_some (fun v => VL [VI 7; VT v]) vp;
+    (* the application URL = host part + SCRIPT_NAME as UTF-8, percent-quoted with the path safe set *)
     match vp, spec_suffix (c_els c), c_app c, decode_path_info (c_script c) with
-    | Some v, Some s, Some app, Ok _ => put_text (app ++ v ++ s)
+    | Some v, Some s, Some host, Ok d => put_text (host ++ Percent.quote c07_script_safe (Utf8.encode d) ++ v ++ s)
     | _, _, _, _ => none_val
     end;
     match vp, spec_suffix (c_els c), decode_path_info (c_script c) with
-    | Some v, Some s, Ok d =>
-        (* how SCRIPT_NAME is quoted is C17's subject: judged here only when quoting changes nothing *)
-        if text_eqb (Percent.quote c07_script_safe (Utf8.encode d)) d then put_text (d ++ v ++ s) else none_val
+    | Some v, Some s, Ok d => put_text (Percent.quote c07_script_safe (Utf8.encode d) ++ v ++ s)
     | _, _, _ => none_val
     end;
     match is_inside with Some v => put_found (FoundAt v) | None => none_val end;
@@ -371,11 +416,12 @@ Definition spec_obs (c : case) : list val :=
 
 Definition get_case (v : val) : option case :=
   match v with
-  | VL [t; r; a; rel; VT rel_str; els; vr; VT sn; app] =>
+  | VL [t; r; a; rel; VT rel_str; els; vr; VT sn; app; hok] =>
       olet t := get_res t in olet r := get_pos r in olet a := get_pos a in
       olet rel := get_texts rel in olet els := get_texts els in
       olet vr := get_opt get_text vr in olet app := get_opt get_text app in
-      Some (mkCase t r a rel rel_str els vr sn app)
+      olet hok := get_bool hok in
+      Some (mkCase t r a rel rel_str els vr sn app hok)
   | _ => None
   end.
 
